@@ -1489,6 +1489,13 @@ def run_profile(s, o):
 SPEC_MODEL = {'image': K('frame', per_row=False, unit='data')}
 
 
+def mech_model(o, name, base=None):
+    nothing = False
+    if base is not None and 'image' in base:
+        nothing = bool(np.all(np.asarray(split_unit(base['image'])[0]) == 0))
+    return {'nothing_rendered': nothing}
+
+
 def prep_model(rng, scene):
     ox, oy, nx, ny = scene['frame'].v
     n = int(rng.integers(1, 8))
@@ -2156,7 +2163,7 @@ TABLE = [
                    'photutils.profiles.curve_of_growth:CurveOfGrowth.profile'], arrays=('data', 'error'),
        mech_fn=mech_profile),
     EP('make_model_image', prep_model, run_model, SPEC_MODEL, {TR, RP},
-       must_reach=['photutils.datasets.images:make_model_image'], arrays=()),
+       must_reach=['photutils.datasets.images:make_model_image'], arrays=(), mech_fn=mech_model),
     EP('centroids', prep_centroid, run_centroid, SPEC_CENTROID, {TR, TP, RP},
        must_reach=['photutils.centroids.core:centroid_com', 'photutils.centroids.core:centroid_quadratic',
                    'photutils.centroids.core:centroid_sources', 'photutils.centroids.gaussian:centroid_2dg'],
